@@ -152,6 +152,9 @@ type modelIn struct {
 	t1, t2 int64 // fake ns interval of the build
 	final  bool  // terminating RA: router lifetime forced to 0
 	uninit bool  // the interface has never been initialised: no address/route source, no MAC
+	// the build's listings were made by helper goroutines side by side and do
+	// not all say the same: which stanza was given which cannot be told
+	ambiguous bool
 }
 
 type modelOut struct {
@@ -390,10 +393,40 @@ func expectRA(in modelIn) *modelOut {
 	}
 
 	ai, ri := 0, 0
+	// A listing that failed and was made again within the same build (the build
+	// made more listings than its stanzas need) is a retry: what counts is what
+	// the expansion was finally made from.
+	needAddr, needRoute := 0, 0
+	for _, p := range s.Prefixes {
+		if p.Prefix == nil || *p.Prefix == "" || *p.Prefix == "::/64" {
+			needAddr++
+		}
+	}
+	for _, r := range s.RDNSS {
+		auto := len(r.Servers) == 0
+		for _, sv := range r.Servers {
+			if sv == "::" {
+				auto = true
+			}
+		}
+		if auto {
+			needAddr++
+		}
+	}
+	for _, r := range s.Routes {
+		if r.Prefix == nil || *r.Prefix == "" || *r.Prefix == "::/0" {
+			needRoute += in.nLoop
+		}
+	}
+	spareAddr, spareRoute := len(in.addr)-needAddr, len(in.routes)-needRoute
 	nextAddr := func() ([]laddr, bool) {
 		if in.uninit {
 			m.fail = "interface never initialised: its addresses cannot be listed"
 			return nil, false
+		}
+		for ai < len(in.addr) && strings.HasPrefix(in.addr[ai], "!") && spareAddr > 0 {
+			ai++
+			spareAddr--
 		}
 		if ai >= len(in.addr) {
 			m.fail = "model: build made fewer address listings than the configuration needs"
@@ -450,6 +483,10 @@ func expectRA(in modelIn) *modelOut {
 				if ri >= len(in.routes) {
 					m.fail = "model: build made fewer route listings than the configuration needs"
 					return m
+				}
+				for ri < len(in.routes)-1 && strings.HasPrefix(in.routes[ri], "!") && spareRoute > 0 {
+					ri++
+					spareRoute--
 				}
 				l := in.routes[ri]
 				ri++
